@@ -23,7 +23,10 @@ RULE = ("random histories of 1..20 mutations (setters, bulk updates, re-construc
         "targets on both sides of the current parameters, bounds entirely above / below the old interval) after a "
         "constructor call, for each of the 13 univariate distributions x 100 (quick) / 400 (thorough) seeds, plus the "
         "witnesses of F32/F35; after every step: record, pdf/pmf at 3 probes, mean, var, 32 seeded draws, 32 seeded "
-        "draws with unrelated objects interleaved, and a fresh twin; non-trivial = distinct (kind, op, valid?, panicked?) "
+        "draws with unrelated objects interleaved, and a fresh twin; bulk draws (sample_n at n = 1000, 32767, 32768, 40000, 65536, "
+        "100000 and sample_matrix with rows*cols >= 32768 for Normal/Exponential/Uniform/Bernoulli; thorough: all 13 kinds at "
+        "n = 40000 and 300x150) run twice and as n single sample() calls from one seed, FNV digest + final generator state "
+        "compared with the model's sequential sampleN; non-trivial = distinct (kind, op, valid?, panicked?) "
         "step class and distinct (kind, op sequence) history")
 EXHAUSTIVE = {"quick": False, "thorough": False}
 NOT_PROVED = [
@@ -430,10 +433,41 @@ def corpus():
     ]
 
 
+BULK_SIZES = [1000, 32767, 32768, 40000, 65536, 100000]
+BULK_PARAMS = {
+    "bernoulli": [0.3], "beta": [2.0, 3.5], "binomial": [40, 0.3], "chisquared": [5], "discreteuniform": [-3, 12],
+    "exponential": [1.5], "gamma": [2.5, 1.5], "gumbel": [0.5, 2.0], "normal": [1.0, 2.0], "pareto": [3.0, 1.5],
+    "poisson": [4.5], "t": [5.0], "uniform": [-1.0, 2.5],
+}
+
+
+def render_bulk(kind, seed, rows, cols, args):
+    return " ".join(["bulk", kind, str(seed), str(rows), str(cols)] + [show_arg(t, v) for t, v in zip(SPEC[kind][0], args)])
+
+
+def gen_bulk(rng, tier, cover):
+    """`sample_n` / `sample_matrix` from a fixed seed at sizes around 2^15 (and well above): run twice and as single
+    draws by the executor, compared with the model's sequential sampleN."""
+    lines = []
+    cheap = ["normal", "exponential", "uniform", "bernoulli"]
+    for kind in cheap:
+        for n in BULK_SIZES:
+            lines.append(render_bulk(kind, rng.randint(0, 2 ** 32), n, 0, BULK_PARAMS[kind]))
+    for kind, (r, c) in zip(cheap, [(256, 128), (200, 200), (1, 32768), (181, 181)]):
+        lines.append(render_bulk(kind, rng.randint(0, 2 ** 32), r, c, BULK_PARAMS[kind]))
+    if tier != "quick":
+        for kind in KINDS:
+            lines.append(render_bulk(kind, rng.randint(0, 2 ** 32), 40000, 0, BULK_PARAMS[kind]))
+            lines.append(render_bulk(kind, rng.randint(0, 2 ** 32), 300, 150, BULK_PARAMS[kind]))
+    cover["bulk-lines"] = len(lines)
+    cover["bulk-draws"] = sum(int(l.split()[3]) * max(1, int(l.split()[4])) for l in lines)
+    return lines
+
+
 def gen(rng, tier):
     nseeds = 100 if tier == "quick" else 400
-    lines = []
     cover = {}
+    lines = gen_bulk(rng.fork("bulk"), tier, cover)
     for s in range(nseeds):
         for kind in KINDS:
             r = rng.fork("%s/%d" % (kind, s))
@@ -523,16 +557,49 @@ def opname(kind, s):
 def nontrivial(line, reply):
     if not reply.startswith("="):
         return None
+    if line.startswith("bulk"):
+        return " ".join(line.split()[:2] + line.split()[3:5])
     kind, steps = parse_request(line)
     flags = "".join(seg.split()[0] for seg in reply[1:].split("|") if seg.split())
     return kind + ":" + ",".join(opname(kind, s) for s in steps) + ":" + flags
 
 
 # ------------------------------------------------------------------------------------------------ oracle
+def oracle_bulk(idx, line, rep, fails):
+    """Sampling with a fixed seed is reproducible: the bulk call twice and n single `sample()` calls from the same seed
+    give the same n values and leave the generator in the same state."""
+    t = line.split()
+    kind, rows, cols = t[1], int(t[3]), int(t[4])
+    what = "sample_n" if cols == 0 else "sample_matrix"
+    n = rows if cols == 0 else rows * cols
+    st, toks = parse_reply(rep)
+    if st != "ok" or "A" not in toks:
+        fails.append(Failure(idx, "%s:%s:no-reply" % (kind, what), "bulk draw of %d values did not return: %s" % (n, rep[:80])))
+        return
+    a = toks.index("A")
+    head, tail = toks[:a], toks[a + 1:]
+    if int(head[0]) != n:
+        fails.append(Failure(idx, "%s:%s:length" % (kind, what), "%s values returned, %d requested" % (head[0], n), str(n)))
+        return
+    d1, s1 = head[1], head[-1]
+    d2, s2, d3, s3 = tail
+    if d2 != d1 or s2 != s1:
+        fails.append(Failure(idx, "%s:%s:reproducible" % (kind, what),
+                             "two %s draws of n = %d values from the same seed differ (digest %s vs %s, generator state after %s vs %s)" % (
+                                 what, n, d1, d2, s1, s2), d1))
+    elif d3 != d1 or s3 != s1:
+        fails.append(Failure(idx, "%s:%s:reproducible" % (kind, what),
+                             "a %s draw of n = %d values differs from n single sample() calls from the same seed (digest %s vs %s, generator state after %s vs %s)" % (
+                                 what, n, d1, d3, s1, s3), d3))
+
+
 def oracle(lines, impl):
     fails = []
     for idx, (line, rep) in enumerate(zip(lines, impl)):
         if rep.startswith("#"):
+            continue
+        if line.startswith("bulk"):
+            oracle_bulk(idx, line, rep, fails)
             continue
         kind, steps = parse_request(line)
         sig, fields, dom = SPEC[kind]
